@@ -16,7 +16,7 @@ import (
 
 // Value is an abstract JSON value.
 type Value struct {
-	K   byte // 'n' 't' 'f' '#' 's' 'a' 'o'
+	K   byte   // 'n' 't' 'f' '#' 's' 'a' 'o'
 	Lit string // '#' from the spec: the literal
 	// '#' from the implementation: tag ('l','u','d'), 64-bit word, float flags
 	NT    byte
